@@ -140,6 +140,38 @@ fn main() {
             Err(e) => if o.status.success() { fail(format!("wac plug ({label}): the library fails ({e}), the process exited 0")); },
         }
     }
+    // ---- plug with several contributing plugs: the same command line gives the same bytes in every (fresh) process, and
+    //      they are the bytes of the library pipeline with the plugs in command-line order
+    let plug_b = comp(&[], &["b"]);
+    fs::write(root.join("plug-b.wasm"), &plug_b).unwrap();
+    // (two DIFFERENT files with the same file stem are two plugs)
+    fs::create_dir_all(root.join("d1")).unwrap(); fs::create_dir_all(root.join("d2")).unwrap();
+    fs::write(root.join("d1/p.wasm"), &plug_a).unwrap(); fs::write(root.join("d2/p.wasm"), &plug_b).unwrap();
+    for plugs in [vec!["plug-a.wasm", "plug-b.wasm"], vec!["plug-b.wasm", "plug-a.wasm"], vec!["plug-b.wasm", "plug-none.wasm", "plug-a.wasm"], vec!["d1/p.wasm", "d2/p.wasm"], vec!["d2/p.wasm", "d1/p.wasm"]] {
+        let mut g = CompositionGraph::new();
+        let mut ids = vec![];
+        let stems: Vec<&str> = plugs.iter().map(|p| p.rsplit('/').next().unwrap().trim_end_matches(".wasm")).collect();
+        for (k, p) in plugs.iter().enumerate() {
+            // the command names a plug `plug:<stem>`, with its position among the plugs of that stem appended when there are several
+            let same: Vec<usize> = (0..plugs.len()).filter(|j| stems[*j] == stems[k]).collect();
+            let name = if same.len() > 1 { format!("plug:{}{}", stems[k], same.iter().position(|j| *j == k).unwrap()) } else { format!("plug:{}", stems[k]) };
+            let pk = Package::from_bytes(&name, None, fs::read(root.join(p)).unwrap(), g.types_mut()).unwrap(); ids.push(g.register_package(pk).unwrap());
+        }
+        let sk = Package::from_bytes("socket", None, socket.clone(), g.types_mut()).unwrap(); let sid = g.register_package(sk).unwrap();
+        wac_graph::plug(&mut g, ids, sid).unwrap();
+        let want = g.encode(EncodeOptions::default()).unwrap();
+        let mut outs: Vec<Vec<u8>> = vec![];
+        for _ in 0..8 {
+            let mut cmd = Command::new(&wac); cmd.arg("plug"); for p in &plugs { cmd.arg("--plug").arg(root.join(p)); } cmd.arg(root.join("socket.wasm")).current_dir(&root);
+            let o = cmd.output().unwrap(); runs += 1;
+            if !o.status.success() { fail(format!("wac plug {:?}: the library succeeds, the process exited {:?}: {}", plugs, o.status.code(), String::from_utf8_lossy(&o.stderr).chars().take(300).collect::<String>())); }
+            outs.push(o.stdout);
+        }
+        let distinct: std::collections::BTreeSet<&Vec<u8>> = outs.iter().collect();
+        if distinct.len() != 1 { fail(format!("wac plug {:?}: 8 runs of the same command line produced {} different outputs (sizes {:?})", plugs, distinct.len(), outs.iter().map(|o| o.len()).collect::<Vec<_>>())); }
+        if interface(&outs[0]) != interface(&want) { fail(format!("wac plug {:?}: output interface {:?}, the library's {:?}", plugs, interface(&outs[0]), interface(&want))); }
+        if outs[0] != want { fail(format!("wac plug {:?}: the output ({} bytes) is not the library pipeline's output for the plugs in command-line order ({} bytes)", plugs, outs[0].len(), want.len())); }
+    }
     // ---- targets
     fs::write(root.join("world.wit"), "package test:w;\nworld w { import a: func(); import b: func(); export f: func(); }\n").unwrap();
     for (cfile, bytes, label) in [("conforms.wasm", comp(&["a"], &["f"]), "conforming"), ("extra-import.wasm", comp(&["a", "zzz"], &["f"]), "extra import"), ("missing-export.wasm", comp(&["a"], &["g"]), "missing export")] {
